@@ -289,6 +289,8 @@ fn composites(chk: &Check, cnt: &Cnt, tier: Tier) {
                             let valid = fields_ok && consistent;
                             let cls = if !fields_ok { "field-out-of-range" } else if is14 { "14-bit-with-inc-dec" } else { "7-bit-value>127" };
                             judge::<ParameterNumberMessage>(chk, cnt, "ParameterNumberMessage", cls, &json!({"channel": c, "number": n, "value": v, "is_registered": reg, "is_14_bit": is14, "data_type": dt}), valid, pnm_ok);
+                            // the same field values as a sequence (what non-self-describing formats feed the derive)
+                            judge::<ParameterNumberMessage>(chk, cnt, "ParameterNumberMessage", &format!("{}/seq-form", cls), &json!([c, n, v, reg, is14, dt]), valid, pnm_ok);
                         }
                     }
                 }
